@@ -51,8 +51,10 @@ Run(s, evs, i, devs, bals, issues) ==
              s1 == IF st.ok THEN st.s
                    ELSE IF evs[i].op = "tx" /\ evs[i].stored THEN Broadcast(st.s, X(evs[i].x), evs[i].tnum) ELSE st.s
              iss1 == IF st.ok THEN issues ELSE Append(issues, [at |-> i, kind |-> "rejected", why |-> st.why, exp |-> 0, dev |-> st.dev])
-             live == ObsWhy(s1, evs[i].live)
-             fresh == ObsWhy(s1, evs[i].fresh)
+             \* "noobs": the event is the first half of one library call, nothing was observable between the halves
+             seen == "noobs" \notin DOMAIN evs[i]
+             live == IF seen THEN ObsWhy(s1, evs[i].live) ELSE "ok"
+             fresh == IF seen THEN ObsWhy(s1, evs[i].fresh) ELSE "ok"
              nb == bals \cup {Balance(s1)} IN
          IF fresh # "ok" THEN Run(s1, evs, i + 1, devs, nb, Append(iss1, [at |-> i, kind |-> "observation", why |-> "reopened-wallet: " \o fresh, exp |-> Balance(s1), dev |-> ""]))
          ELSE IF live = "ok" THEN Run(s1, evs, i + 1, devs, nb, iss1)
